@@ -875,7 +875,16 @@ bool HSolver::runSolver(bool verbose)
         return false;
     }
 
-    if (!LoadPrev() && verbose)
+    // LoadPrev returns 0 (loaded), true (no previous solution requested) or an error code
+    const int prevStatus = LoadPrev();
+    if (prevStatus == BADELEMENTFILE)
+    {
+        std::string msg = "problem loading previous solution file:\n" + previousSolutionFile + "\n";
+        WarnMessage(msg.c_str());
+        return false;
+    }
+
+    if (!prevStatus && verbose)
     {
         PrintMessage("Loading previous solution\n");
     }
